@@ -82,7 +82,7 @@ _vindex = st.one_of(st.just(0), st.integers(0, 199))
 def clamp_spec():
     return st.one_of(
         xm.spec_free(),
-        xm.spec_line(REACH),
+        xm.spec_line(REACH, through=True),
         xm.spec_radial(REACH),
         xm.spec_plane(),
         xm.spec_curve(REACH),
@@ -130,6 +130,7 @@ def _run_params(draw, links: bool, fault: bool, method: Optional[str] = None) ->
         "method": method or draw(st.sampled_from(METHODS)),
         "iters": draw(st.integers(1, 3)),
         "tolerance": draw(st.sampled_from([0.1, 1e-3])),
+        "runs": draw(st.sampled_from([1, 1, 2])),  # optimize() called once, or twice on the same optimizer (coarse + finish)
         # the whole model (with its manifolds and links) sits this many model sizes from the origin, in a general direction
         "place": {"dir": draw(xm.vec3), "ratio": draw(st.sampled_from(PLACE_RATIOS))},
         "fault": draw(st.floats(0.0, 0.999)) if fault else None,
@@ -200,7 +201,11 @@ def sketch_case(draw, links: bool = False, fault: bool = False, method: Optional
         "b": draw(xm.vec3) if general else [0.0, 1.0, 0.0],
         "origin": [draw(st.floats(-3.0, 3.0)) for _ in range(3)],
     }
-    return {"kind": "sketch", "sk": sk, **_run_params(draw, links, fault, method)}
+    # the sketch is built, looked at (positions read), and only then moved to its place with the library's transforms
+    pose = None
+    if draw(st.booleans()):
+        pose = {"translate": draw(xm.vec3), "angle": draw(st.floats(-3.0, 3.0)) if general else 0.0, "axis": draw(xm.vec3)}
+    return {"kind": "sketch", "sk": sk, "pose": pose, **_run_params(draw, links, fault, method)}
 
 
 # --------------------------------------------------------------------------------------------------
@@ -264,6 +269,13 @@ class Model:
             if place["ratio"]:
                 pts = pts + place["ratio"] * extent * xm.unit(xm.fix_vec(place["dir"]))
             self.target = cb.MappedSketch(pts, quads)
+            self.quads = quads
+            pose = case.get("pose")
+            if pose:
+                _ = self.target.positions  # a user inspecting the sketch before putting it in place
+                if pose["angle"]:
+                    self.target.rotate(pose["angle"], xm.fix_vec(pose["axis"]), np.average(pts, axis=0))
+                self.target.translate(2.0 * self.size * np.asarray(pose["translate"], float))
             self.optimizer = cb.SketchOptimizer(self.target, report=False)
             sk = case["sk"]
             self.topology = "sketch:" + (sk["topo"] if sk["topo"] == "disk" else "x".join(map(str, sk["n"])))
@@ -317,9 +329,33 @@ class Model:
         warnings.simplefilter("ignore")
 
     def positions(self) -> np.ndarray:
+        """where the vertices / sketch points really are: read from the mesh vertices, resp. from the faces of the sketch
+        through the harness's own quad table (not through sketch.positions, which is library bookkeeping)"""
         if self.kind == "mesh":
             return np.array([np.array(v.position, dtype=float) for v in self.target.vertices])
-        return np.array(self.target.positions, dtype=float)
+        out = np.full((1 + max(max(q) for q in self.quads), 3), np.nan)
+        for quad, face in zip(self.quads, self.target.faces):
+            corners = np.asarray(face.point_array, dtype=float)
+            for j, index in enumerate(quad):
+                out[index] = corners[j]
+        return out
+
+    def shared_points_disagree(self) -> Optional[int]:
+        """index of a sketch point that two faces hold at different positions (None: all consistent)"""
+        if self.kind == "mesh":
+            return None
+        seen: Dict[int, np.ndarray] = {}
+        for quad, face in zip(self.quads, self.target.faces):
+            corners = np.asarray(face.point_array, dtype=float)
+            for j, index in enumerate(quad):
+                if index in seen and not np.array_equal(seen[index], corners[j]):
+                    return int(index)
+                seen[index] = corners[j]
+        return None
+
+    def live_position(self, i: int):
+        """the array the model itself keeps for vertex i (mesh only): what the library's examples pass to clamps"""
+        return self.target.vertices[i].position if self.kind == "mesh" else None
 
     def quality_of(self, points: np.ndarray) -> float:
         """the library's summed measure on a fresh grid"""
@@ -485,10 +521,22 @@ def run_and_check(case, ctx: Ctx, fault_at: Optional[int]) -> Probe:
 
     # --- clamps
     manifolds, clamps, attached = [], [], []
-    for vi, spec in zip(clamp_idx, specs):
+    for k, (vi, spec) in enumerate(zip(clamp_idx, specs)):
+        live = None
+        if spec["type"] == "line" and spec.get("through") is not None:
+            # LineClamp(v.position, v.position, w.position): w is the next clamped vertex if there is one (it moves too)
+            others = [c for c in clamp_idx if c != vi]
+            wi = others[k % len(others)] if others else [i for i in range(n) if i != vi][spec["through"] % (n - 1)]
+            spec = dict(spec, _p2=before[wi].tolist())
+            if model.live_position(vi) is not None:
+                live = (model.live_position(vi), model.live_position(wi))
+            ctx.label("line-through-vertices")
         man = xm.build(spec, before[vi], size)
         try:
-            clamp = man.make_clamp(np.array(before[vi]))
+            if live is not None:
+                clamp = man.make_clamp(live[0], ends=live)
+            else:
+                clamp = man.make_clamp(np.array(before[vi]))
         except Exception as ex:
             raise Violation("setup-raised", f"{spec['type']} clamp at a vertex raised {type(ex).__name__}: {ex}",
                             clamp=spec["type"], **facts) from None
@@ -545,10 +593,14 @@ def run_and_check(case, ctx: Ctx, fault_at: Optional[int]) -> Probe:
     probe = Probe(fault_at)
     probe.install(opt)
     raised: Optional[BaseException] = None
+    runs = int(case.get("runs", 1))
+    start_of_run = before
     try:
         probe.armed = True
         with contextlib.redirect_stdout(io.StringIO()):
-            opt.optimize(max_iterations=case["iters"], tolerance=case["tolerance"], method=case["method"])
+            for run in range(runs):
+                start_of_run = before if run == 0 else model.positions()
+                opt.optimize(max_iterations=case["iters"], tolerance=case["tolerance"], method=case["method"])
     except Exception as ex:  # judged below
         raised = ex
     finally:
@@ -566,8 +618,8 @@ def run_and_check(case, ctx: Ctx, fault_at: Optional[int]) -> Probe:
             raise Violation("optimize-raised", f"optimize() raised {type(raised).__name__}: {raised}",
                             error=type(raised).__name__, invalid_curve_parameter="Invalid parameter" in str(raised),
                             **facts)
-        if not np.array_equal(after, before):
-            moved = [int(i) for i in np.nonzero(np.any(after != before, axis=1))[0]]
+        if not np.array_equal(after, start_of_run):  # untouched by the call that raised
+            moved = [int(i) for i in np.nonzero(np.any(after != start_of_run, axis=1))[0]]
             raise Violation("half-applied-after-raise", f"optimize() raised '{raised}' but vertices {moved} have moved",
                             moved=moved, **facts)
         ctx.nt(True)
@@ -579,6 +631,10 @@ def run_and_check(case, ctx: Ctx, fault_at: Optional[int]) -> Probe:
         if not dev <= TOL_COPY * size:
             raise Violation("fault-not-rolled-back", f"degenerate cell met in optimisation step {probe.fired_step}: the "
                             f"grid differs by {dev:.3g} from its state before that step", deviation=dev, **facts)
+
+    bad = model.shared_points_disagree()
+    if bad is not None:
+        raise Violation("backport", f"two faces of the sketch hold point {bad} at different positions", vertices=[bad], **facts)
 
     # --- mesh vertices / sketch positions equal the optimizer's final grid points
     gp = np.array(opt.grid.points, dtype=float)
@@ -651,7 +707,9 @@ def run_and_check(case, ctx: Ctx, fault_at: Optional[int]) -> Probe:
 
     ctx.nt(moved_any or probe.rollbacks > 0 or probe.skips > 0 or probe.fired)
     ctx.label("method=" + case["method"], f"iters={case['iters']}")
-    ctx.label("placed-at=%g" % (case.get("place") or {}).get("ratio", 0.0))
+    ctx.label("placed-at=%g" % (case.get("place") or {}).get("ratio", 0.0), f"optimize-calls={runs}")
+    if case.get("pose"):
+        ctx.label("sketch-transformed-after-reading")
     if case.get("premin"):
         ctx.label("starts-near-minimum")
     if probe.rollbacks:
@@ -730,7 +788,8 @@ _RADIAL_TIGHT = {"type": "radial", "normal": [0.1, 0.2, 1.0], "cdir": [1.0, 0.3,
                  "bounded": True, "lo": 0.02, "hi": 0.02}
 _SURF_TIGHT = {"type": "surface", "a": [1.0, 0.1, 0.0], "b": [0.0, 1.0, 0.2], "c": 0.2, "uv0": [0.3, -0.2],
                "bounded": True, "hint": True, "lo": [0.02, 0.03], "hi": [0.03, 0.02]}
-_ALL = {k: [1.0, -1.0, 0.8] for k in range(12)}
+# every node displaced differently (a common displacement would leave the lattice regular)
+_ALL = {k: [((7 * k + 3) % 11) / 5.0 - 1.0, ((5 * k + 1) % 13) / 6.0 - 1.0, ((3 * k + 8) % 7) / 3.0 - 1.0] for k in range(12)}
 
 FIXED_MESH = [
     # vertex 0 (a jittered corner) free: must move, and be copied back
@@ -814,6 +873,20 @@ FIXED_FAR_SKETCH = [
     dict(_case("sketch", _SK3, [{"v": 0, "m": _FREE}], m, iters=1, links=[dict(_L_TRANS, f=0)]),
          far={"lead": 0, "follow": 0})
     for m in ("SLSQP", "Powell")
+]
+# the idiom of the library's examples: LineClamp(v.position, v.position, w.position) with w clamped as well, and a
+# coarse pass followed by a finishing pass on the same optimizer
+_LINE_THROUGH = dict(_LINE_TIGHT, through=0, bounded=False)
+FIXED_MESH += [
+    dict(_case("mesh", _lat((2, 1, 1), _ALL), [{"v": 1, "m": dict(_LINE_THROUGH, bounded=True, lo=0.12, hi=0.12)},
+                                               {"v": 5, "m": _FREE}], "SLSQP", iters=1), runs=2),
+    dict(_case("mesh", _lat((2, 1, 1), _ALL), [{"v": 6, "m": dict(_LINE_THROUGH, bounded=True, lo=0.1, hi=0.1)},
+                                               {"v": 2, "m": _FREE}], "L-BFGS-B", iters=1), runs=2),
+]
+# a sketch that is read, then rotated and translated to its place, then optimised
+FIXED_SKETCH += [
+    dict(_case("sketch", _SK, [{"v": 4, "m": _FREE}], "SLSQP"),
+         pose={"translate": [0.8, -0.5, 0.3], "angle": 0.7, "axis": [0.2, -0.3, 0.9]}),
 ]
 FIXED_FAULT_MESH = [
     dict(_case("mesh", _lat((2, 1, 1), _ALL), [{"v": 0, "m": _FREE}, {"v": 1, "m": _FREE}], "SLSQP"), fault=f)
